@@ -67,6 +67,11 @@ CHECKS = {
          "Servers with 4-8 mailboxes / 2-6 messages per mailbox / highest UID 6-16. Histories of CREATE with implicit parents, RENAME onto deep names, DELETE, APPEND, COPY/MOVE of 1-4 messages (UID forms too), EXPUNGE, connector MessagesCreated (1-4 messages, 1-2 mailboxes), MessageMailboxesUpdated, MailboxCreated; then 3-8 sessions APPEND/COPY into a nearly full mailbox and CREATE deep names at once. After every step: mailboxes, messages per mailbox and UIDs within the maxima; a refused operation left every mailbox and the mailbox list unchanged; an operation that fits by the counts before it was accepted.",
          "The hidden recovery mailbox is not counted for the bound (it is for 'fits'); the UID maximum is exclusive for 'fits' as gluon's own suite asserts. What the remote was told by a command that was then refused is undone in the harness connector (gluon calls the connector before its own check).",
          "DESIGN.md §4 C17"),
+ "C18": ("exploration",
+         "state-gating trace monitor and cross-user observation: random command batches per protocol state with full before/after observations of three users; wrong-credential table; isolation histories; jail scripts judged by a lower bound on elapsed time",
+         "Servers with three users (same mailbox names, own content). Random batches of all 27 mailbox/message command kinds before LOGIN, after failed LOGINs, without a selection, after CLOSE/UNSELECT and after a failed SELECT: each must be answered NO/BAD, leak no data responses, and leave the complete observation of every user (LIST, LSUB, UIDs, flags, markers) unchanged; CAPABILITY/NOOP/ID still work. 15 wrong user/password combinations in quoted and literal forms never authenticate. One user's 25 random mutating commands (and another user's connector updates) never change what the other users see and no view shows a foreign message. 16 jail scripts (F/S/new-connection sequences, second rounds): the answer after three consecutive failures must not arrive earlier than jail time after the third failing LOGIN was sent.",
+         "The jail oracle is a lower bound on wall time (load can only make it pass); it does not show that unjailed logins are prompt. AUTHENTICATE and STARTTLS are not exercised (no TLS configured).",
+         "DESIGN.md §4 C18"),
  "C16": ("exploration",
          "reference resolver monitor: generated message sets (hostile magnitudes, both range orders, '*', unions) against views with UID gaps; selected messages / BAD+no-effect compared with an RFC 3501 set resolver; exhaustive small-n table in thorough",
          "Runs the real server and, for views of 0-12 messages with UID gaps, issues FETCH/STORE/COPY/MOVE/SEARCH/UID EXPUNGE (sequence and UID forms) with generated sets whose numbers include 0, n+1, 2^31+-1, 2^32+-1, 2^32+k, 2^63+-1, 2^64+k, 10^30; the messages actually affected (rows returned, flags set, messages copied/moved/expunged, search results) must equal what an independent resolver computes, an invalid sequence number must give BAD and leave source and destination unchanged. Thorough adds all sets of <=2 ranges over {1..n+2,*} for n<=4.",
